@@ -24,7 +24,10 @@ def _case(draw):
     cfg = draw(B.cfg_strategy(rets=(0, 0.25, 0.25, 4.0)))
     bdur = draw(st.sampled_from([0, 4 * H.U, 0.25]))
     nk = draw(st.integers(1, 3))
-    calls = draw(B.timed_calls(10, cfg, bdur, B.NAMES[:nk]))
+    calls = draw(B.timed_calls(8, cfg, bdur, B.NAMES[:nk]))
+    for c in calls:
+        if draw(st.integers(0, 4)) == 0:
+            c['chain'] = draw(st.integers(1, 2))    # ask again for the same key the moment the answer arrives
     keys = sorted({c['key'] if c['key'] is not None else c['name'] for c in calls})
     behave = {k: 'exc' for k in keys if draw(st.integers(0, 3)) == 0}
     return {'cfg': cfg, 'calls': calls, 'behave': behave, 'order': draw(st.sampled_from(['fwd', 'rev'])),
@@ -53,4 +56,6 @@ def run_case(case):
         cl.append('joined-while-pending')
     if skipped:
         cl.append('tie-adopted')
+    if any(c.get('after') is not None for c in hist['callers']):
+        cl.append('chained-call')
     return Result(viol, nt, cl, H.abbreviate(hist), {'steps': hist['steps'], 'tie_skips': skipped})
